@@ -43,9 +43,10 @@ FC = ['sdc11073.mdib.providermdib.ProviderMdib._transaction_manager', 'sdc11073.
 FO = ['sdc11073.mdib.providermdib.ProviderMdib._transaction_manager', 'sdc11073.provider.providerimpl.SdcProvider._send_episodic_reports',
       'sdc11073.provider.subscriptionmgr_base.SubscriptionsManagerBase.send_to_subscribers',
       'sdc11073.provider.subscriptionmgr_async.SubscriptionsManagerBaseAsync.send_to_subscribers']
-SK = ['metric', 'metrics_two_mds', 'alert', 'component', 'operational', 'context_new_and_update']
+SK = ['metric', 'metrics_two_mds', 'alert', 'component', 'operational', 'context_new_and_update', 'context_add_state_without_handle']
 DK = ['update_descriptor_and_state', 'create', 'delete_leaf', 'delete_subtree', 'create_in_second_mds', 'delete_child_then_parent',
-      'update_rt_sample_array_descriptor', 'update_rt_and_metric_descriptor', 'update_alert_and_context_descriptor']
+      'update_rt_sample_array_descriptor', 'update_rt_and_metric_descriptor', 'update_alert_and_context_descriptor',
+      'create_two_children_of_one_parent', 'update_parent_and_delete_child']
 RK = ['metric_nested', 'context_nested', 'alert_flat']
 E3_STUBS = ['provider = tests.mockstuff.SomeDevice (70041_MDIB_Final.xml), MockWsDiscovery, no HTTP server; '
             'send_to_subscribers of every subscriptions manager is wrapped to log a send event and record (action, MdibVersion)',
